@@ -64,7 +64,11 @@ RULE = ("seeded random programs: 0-40 parameters over 1-4 functions (wrap "
         "than the parameters with None / lag numbers / rate names / lag lists, "
         "number / tuple (1-5, sometimes 17-21 values) / None / missing "
         "defaults, prepend 0-2 per function, metadata specs, 0-3 variants, one "
-        "call with 0-6 positional and 0-4 keyword arguments.  Non-trivial: at "
+        "call with 0-6 positional and 0-4 keyword arguments; 20 % with a wrap "
+        "rejected for its signature and recovered, 18 % with 1-2 wrapped "
+        "functions whose body raises after their controls exist (user / "
+        "library exception, handled 0-3 wrap levels up, fallback or retry, "
+        "further wraps).  Non-trivial: at "
         "least two rate groups plus an array control, a lag, a wrap or a "
         "prepend; distinct = hash of the program description")
 ASSUMPTIONS = [
@@ -76,6 +80,11 @@ ASSUMPTIONS = [
     "that is declared more than once, lag lists "
     "for scalar parameters, complex/invalid defaults and empty tuples are "
     "outside the domain",
+    "a wrap call whose exception a graph function handles leaves either "
+    "all or none of the controls it created in the definition (both "
+    "accepted; the unchanged library keeps all); programs in which such an "
+    "exception leaves the top function are outside the domain (no "
+    "definition results)",
     "positional arguments of SynthDef.__call__ name the controls of the "
     "definition's own function in declaration order (prepended parameters "
     "are not controls)",
@@ -103,12 +112,12 @@ MIN_COUNTERS = {
                  'failed_wraps_recovered': 10000,
                  'repeated_name_declarations': 30000,
                  'failed_wrap_bytes_compared': 8000,
-                 'failed_bodies_recovered': 50000,
-                 'programs_wrapping_after_a_failed_body': 25000,
-                 'controls_declared_after_a_failed_body': 100000,
-                 'controls_of_failed_bodies': 100000,
-                 'failed_bodies_passing_through_a_wrapped_function': 3000,
-                 'failed_bodies_raised_by_library_call': 10000},
+                 'failed_bodies_recovered': 20000,
+                 'programs_wrapping_after_a_failed_body': 15000,
+                 'controls_declared_after_a_failed_body': 70000,
+                 'controls_of_failed_bodies': 50000,
+                 'failed_bodies_passing_through_a_wrapped_function': 2500,
+                 'failed_bodies_raised_by_library_call': 5000},
 }
 
 
